@@ -442,6 +442,9 @@ def c03_order(m, run):
                         if bool(out) != want:
                             raise Violation('OT3', 'check returned %r, expected %r' % (out, want))
                     tc.add((p, n, seq), run1(m, 'knotvector.check', [p, [Ord(r) for r in seq], n], {}, postc))
+                    if want or L == n + p + 1:
+                        # the documented input type is "list, tuple": the verdict does not depend on which of the two is given
+                        tc.add((p, n, seq, 'tuple'), run1(m, 'knotvector.check', [p, tuple(Ord(r) for r in seq), n], {}, postc))
     finish(tc, 'geomdl/knotvector.py')
 
 
